@@ -41,7 +41,8 @@ type Result struct {
 	Sample     []int     `json:"sample_schedule"`
 }
 
-var goEnv = []string{"GOFLAGS=-mod=mod", "GOPROXY=off", "GOSUMDB=off", "GOTOOLCHAIN=local"}
+// VERIF_GOFLAGS (an -overlay flag) is only set by tools/seed_eval.sh
+var goEnv = []string{strings.TrimSpace("GOFLAGS=-mod=mod " + os.Getenv("VERIF_GOFLAGS")), "GOPROXY=off", "GOSUMDB=off", "GOTOOLCHAIN=local"}
 
 func run(dir string, env []string, name string, args ...string) (string, string, error) {
 	cmd := exec.Command(name, args...)
@@ -59,12 +60,12 @@ var buildOnce sync.Once
 // Any failure here is a machinery error (exit 2), never a verdict.
 func Build(race bool) {
 	buildOnce.Do(func() {
-		work := filepath.Join(ev.Root, ".work")
+		work := ev.Work()
 		os.MkdirAll(filepath.Join(work, "bin"), 0o755)
 		if _, se, err := run(ev.Root, nil, "go", "build", "-o", filepath.Join(work, "bin", "instr"), "./tools/instr"); err != nil {
 			ev.Fatal("building the instrumenter failed: %v\n%s", err, se)
 		}
-		if so, se, err := run(ev.Root, nil, filepath.Join(work, "bin", "instr"), "-repo", "/repo", "-out", filepath.Join(work, "instr")); err != nil {
+		if so, se, err := run(ev.Root, nil, filepath.Join(work, "bin", "instr"), "-repo", ev.RepoDir(), "-out", filepath.Join(work, "instr")); err != nil {
 			ev.Fatal("instrumenting /repo failed: %v\n%s%s", err, so, se)
 		}
 		if _, se, err := run(ev.Root, nil, "go", "build", "-modfile="+filepath.Join(work, "instr", "go.mod"), "-tags", "verif", "-o", filepath.Join(work, "bin", "sched"), "./checks/sched"); err != nil {
@@ -72,7 +73,7 @@ func Build(race bool) {
 		}
 	})
 	if race {
-		work := filepath.Join(ev.Root, ".work")
+		work := ev.Work()
 		if _, se, err := run(ev.Root, nil, "go", "build", "-race", "-tags", "verif", "-o", filepath.Join(work, "bin", "sched_race"), "./checks/sched"); err != nil {
 			ev.Fatal("building the -race worker failed: %v\n%s", err, se)
 		}
@@ -81,7 +82,7 @@ func Build(race bool) {
 
 // List returns the scenario names registered for prop.
 func List(prop string) []string {
-	so, se, err := run(ev.Root, nil, filepath.Join(ev.Root, ".work", "bin", "sched"), "list")
+	so, se, err := run(ev.Root, nil, filepath.Join(ev.Work(), "bin", "sched"), "list")
 	if err != nil {
 		ev.Fatal("sched list: %v %s", err, se)
 	}
@@ -112,7 +113,7 @@ func Explore(r *ev.Run, jobs []Job) []Result {
 		if j.Delay {
 			args = append(args, "delay")
 		}
-		so, se, err := run(ev.Root, []string{"GOMAXPROCS=2"}, filepath.Join(ev.Root, ".work", "bin", "sched"), args...)
+		so, se, err := run(ev.Root, []string{"GOMAXPROCS=2"}, filepath.Join(ev.Work(), "bin", "sched"), args...)
 		if err != nil {
 			ev.Fatal("worker failed on %s: %v\n%s", j.Scenario, err, se)
 		}
@@ -128,7 +129,7 @@ func Confirm(scenario string, choices []int) (confirmed bool, detail string) {
 	cj, _ := json.Marshal(choices)
 	var first string
 	for i := 0; i < 5; i++ {
-		so, se, err := run(ev.Root, []string{"GOMAXPROCS=2"}, filepath.Join(ev.Root, ".work", "bin", "sched"), "replay", scenario, string(cj))
+		so, se, err := run(ev.Root, []string{"GOMAXPROCS=2"}, filepath.Join(ev.Work(), "bin", "sched"), "replay", scenario, string(cj))
 		if err == nil {
 			return false, "replay did not violate: " + so
 		}
@@ -197,7 +198,7 @@ func RacePass(r *ev.Run, scenarios []string, reps int) {
 	races := 0
 	ev.Parallel(len(scenarios), 4, func(i int) {
 		sc := scenarios[i]
-		so, se, err := run(ev.Root, []string{"GORACE=halt_on_error=0"}, filepath.Join(ev.Root, ".work", "bin", "sched_race"), "race", sc, fmt.Sprint(reps))
+		so, se, err := run(ev.Root, []string{"GORACE=halt_on_error=0"}, filepath.Join(ev.Work(), "bin", "sched_race"), "race", sc, fmt.Sprint(reps))
 		r.Eval(reps)
 		if strings.Contains(se, "WARNING: DATA RACE") {
 			mu.Lock()
